@@ -18,9 +18,9 @@ def sh(cmd, cwd=None, timeout=3600):
     return p.returncode, (p.stdout + p.stderr)
 
 
-def do_import(pid):
+def do_import(pid, letters=("A", "B")):
     wt = f"/tmp/wt/{pid}"
-    for x in ("A", "B"):
+    for x in letters:
         src = f"{wt}/_seed/{x}"
         if not os.path.exists(f"{src}/patch.diff"):
             print(pid, x, "missing"); continue
@@ -103,6 +103,9 @@ if __name__ == "__main__":
     if cmd == "import":
         for pid in sys.argv[2:]:
             do_import(pid)
+    elif cmd == "import2":
+        for pid in sys.argv[2:]:
+            do_import(pid, ("C", "D"))
     elif cmd == "eval":
         ids = sys.argv[2:] or sorted(os.path.basename(os.path.dirname(m)) for m in glob.glob(f"{SEEDED}/*/meta.json"))
         do_eval(ids)
